@@ -72,20 +72,47 @@ def statement_text(el, name):
     raise ValueError(name)
 
 
+def xml_escape(s):
+    return s.replace('&', '&amp;').replace('<', '&lt;').replace('>', '&gt;')
+
+
+def parts_text(parts, escape=True):
+    out = ''
+    for part in parts:
+        if isinstance(part, str):
+            out += part
+        elif 'dollar' in part:
+            out += '$$' * part['dollar']
+        else:
+            t = expr_text(part['interp'])
+            out += '${' + (xml_escape(t) if escape else t) + '}'
+    return out
+
+
 def serialise(node, prefix='tal'):
     """Template text of a node (element, text, interpolation) -- the *generator's* rendering of the
     program, used as input for the real compiler."""
     if isinstance(node, str):
         return node
     if 'interp' in node:
-        return '${' + expr_text(node['interp']) + '}'
+        # markup characters of the expression are written as entities (decoded before evaluation)
+        return '${' + xml_escape(expr_text(node['interp'])) + '}'
+    if 'dollar' in node:
+        return '$$' * node['dollar']
+    if 'comment' in node:
+        return '<!--' + node.get('kind', '') + parts_text(node['comment'], False) + '-->'
+    if 'cdata' in node:
+        return '<![CDATA[' + parts_text(node['cdata'], False) + ']]>'
     out = ''
     if node.get('indent') is not None:
         out += '\n' + ' ' * node['indent']
     out += '<' + node['tag']
     stat = ['%s="%s"' % (n, v if isinstance(v, str) else ''.join(
-        x if isinstance(x, str) else '${' + attr_escape(expr_text(x['interp'])) + '}' for x in v))
+        x if isinstance(x, str) else ('$$' * x['dollar'] if 'dollar' in x else
+                                      '${' + attr_escape(expr_text(x['interp'])) + '}') for x in v))
         for n, v in node.get('static', [])]
+    if node.get('interp_switch'):
+        stat.append('meta:interpolation="%s"' % node['interp_switch'])
     present = [s for s in node.get('order', STATEMENTS) if s in node]
     present += [s for s in STATEMENTS if s in node and s not in present]
     dyn = ['%s:%s="%s"' % (prefix, TALNAME.get(s, s), attr_escape(statement_text(node, s)))
